@@ -252,6 +252,14 @@ Proof.
     rewrite index_of_nth_sorted; auto using cats_sorted.
 Qed.
 
+(* Remark (known finding on the implementation side, KNOWN_FINDINGS.txt C05): the MODEL's coding distinguishes cells that
+   differ only after a NUL code point -- 'a' = [97], 'a\x00' = [97; 0], 'a\x00b' = [97; 0; 98], '' = [], '\x00' = [0] get five
+   different codes, in code-point order -- whereas pandas' category coding hashes str cells as C strings and merges
+   'a' / 'a\x00' / 'a\x00b' and '' / '\x00'.  The model is right, the implementation deviates. *)
+Example codes_distinguish_nul :
+  codes [[97]; [97; 0]; [97; 0; 98]; []; [0]; [97]]%N = [2; 3; 4; 0; 1; 2]%N.
+Proof. vm_compute. reflexivity. Qed.
+
 (* ---- orientation ------------------------------------------------------------------------------- *)
 
 Lemma orient_label : forall lbl a b, a = lbl \/ b = lbl ->
